@@ -144,6 +144,31 @@ pub trait ExFromStr: Sized {
 pub uninterp spec fn parse_spec<I>(s: Seq<char>) -> Option<I>;
 pub assume_specification<F: std::str::FromStr> [str::parse::<F>] (s: &str) -> (r: Result<F, F::Err>)
     ensures match parse_spec::<F>(s@) { Some(v) => r == Ok::<F, F::Err>(v), None => r is Err };
+/// ASCII decimal digits, and their value (the grammar `u64::from_str` / `usize::from_str` accept without a sign)
+pub open spec fn ascii_digits(b: Seq<u8>) -> bool { b.len() > 0 && forall|k: int| 0 <= k < b.len() ==> 0x30 <= #[trigger] b[k] <= 0x39 }
+pub open spec fn ascii_dec_value(b: Seq<u8>, e: int) -> nat
+    decreases e
+{
+    if e <= 0 { 0 } else { ascii_dec_value(b, e - 1) * 10 + (b[e - 1] - 0x30) as nat }
+}
+/// ASSUMED about `u64::from_str`: a non-empty string of ASCII digits parses to its decimal value, and fails iff that exceeds u64::MAX
+#[verifier::external_body]
+pub broadcast proof fn axiom_parse_u64_digits(t: Seq<char>)
+    requires ascii_digits(vstd::utf8::encode_utf8(t))
+    ensures #[trigger] parse_spec::<u64>(t) == (if ascii_dec_value(vstd::utf8::encode_utf8(t), vstd::utf8::encode_utf8(t).len() as int) <= u64::MAX { Some(ascii_dec_value(vstd::utf8::encode_utf8(t), vstd::utf8::encode_utf8(t).len() as int) as u64) } else { None })
+{}
+/// ASSUMED about `usize::from_str` (usize is 64 bits here): as for u64
+#[verifier::external_body]
+pub broadcast proof fn axiom_parse_usize_digits(t: Seq<char>)
+    requires ascii_digits(vstd::utf8::encode_utf8(t))
+    ensures #[trigger] parse_spec::<usize>(t) == (if ascii_dec_value(vstd::utf8::encode_utf8(t), vstd::utf8::encode_utf8(t).len() as int) <= usize::MAX { Some(ascii_dec_value(vstd::utf8::encode_utf8(t), vstd::utf8::encode_utf8(t).len() as int) as usize) } else { None })
+{}
+#[verifier::external_type_specification] #[verifier::external_body] pub struct ExUtf8Error(core::str::Utf8Error);
+/// ASSUMED about `core::str::from_utf8`: succeeds exactly on valid UTF-8 (vstd's definition) and returns the text with these bytes
+pub assume_specification<'a> [core::str::from_utf8] (b: &'a [u8]) -> (r: Result<&'a str, core::str::Utf8Error>)
+    ensures
+        vstd::utf8::valid_utf8(b@) ==> (r matches Ok(s) && vstd::utf8::encode_utf8(s@) == b@),
+        !vstd::utf8::valid_utf8(b@) ==> r is Err;
 /// "v is representable as a Duration": finite, >= 0, below 2^64 seconds — exactly what Duration::try_from_secs_f64 accepts
 pub uninterp spec fn f64_repr_ok(v: f64) -> bool;
 pub uninterp spec fn dur_of_f64(v: f64) -> std::time::Duration;
